@@ -12,8 +12,8 @@ use sv_parser::*;
 
 pub fn cases(tier: Tier) -> u64 {
     match tier {
-        Tier::Quick => 2400,
-        Tier::Thorough => 64000,
+        Tier::Quick => 10000,
+        Tier::Thorough => 200000,
         Tier::Tiny => 32,
     }
 }
@@ -76,10 +76,10 @@ pub fn run_case(_env: &Env, ctx: &mut Ctx, idx: u64) {
         layout: if rng.chance(1, 5) { gen_sv::Layout::Plain } else { gen_sv::Layout::Random },
     };
     let prog = gen_sv::program(&mut rng, &opts);
-    check_program(ctx, &prog, k6_shape);
+    check_program(_env, ctx, &prog, k6_shape);
 }
 
-pub fn check_program(ctx: &mut Ctx, prog: &gen_sv::Program, k6_shape: bool) {
+pub fn check_program(_env: &Env, ctx: &mut Ctx, prog: &gen_sv::Program, k6_shape: bool) {
     ctx.count("programs", 1);
     ctx.count("tokens", prog.toks.len() as u64);
     ctx.count("expected_facts", prog.facts.len() as u64);
@@ -105,7 +105,8 @@ pub fn check_program(ctx: &mut Ctx, prog: &gen_sv::Program, k6_shape: bool) {
             sv_parser_parser::verif_hooks::set_capacity(Some(sv_parser_parser::verif_hooks::DEFAULT_CAPACITY));
             let msg = format!("generated Annex A sentence rejected in strict mode: {:?}", e);
             if let Ok(Ok(_)) = r2 {
-                ctx.violation("rejected", "K3", &format!("{} (accepted with unbounded memo)", msg), witness(&msg));
+                let (sig, note) = crate::memo_cfg::attribute(_env, "K3");
+                ctx.violation("rejected", &sig, &format!("{} (accepted with unbounded memo){}", msg, note), witness(&msg));
             } else {
                 ctx.violation("rejected", "", &msg, witness(&msg));
             }
